@@ -151,13 +151,13 @@ Section Facts.
 
   Theorem offset_out_of_span_rejected d o t s p :
     min_iter o <= max_iter o ->
-    py_pos (length (status s)) t = Some p ->
+    py_pos (length (status s)) t = Some p -> feasible d (length (status s)) p = true ->
     offset o <> 0 ->
     (Z.of_nat p + offset o < 0 \/ Z.of_nat (length (status s)) <= Z.of_nat p + offset o) ->
     solve_t_M d o t s = (s, Raise IndexError).
   Proof.
-    intros Hmm Hp Hoff Hout. unfold Solver.solve_t_M.
-    replace (max_iter o <? min_iter o) with false by lia. rewrite Hp.
+    intros Hmm Hp Hfeas Hoff Hout. unfold Solver.solve_t_M.
+    replace (max_iter o <? min_iter o) with false by lia. rewrite Hp. rewrite Hfeas. cbn [negb].
     replace (offset o =? 0) with false by lia.
     destruct (Z.of_nat p + offset o <? 0) eqn:E1; [reflexivity|].
     replace (Z.of_nat (length (status s)) <=? Z.of_nat p + offset o) with true by lia. reflexivity.
@@ -166,7 +166,7 @@ Section Facts.
   (* a non-zero in-span offset = the offset-free call on the store in which the endogenous
      values of period t+offset were copied into period t *)
   Theorem offset_seeds d o t s p :
-    py_pos (length (status s)) t = Some p ->
+    py_pos (length (status s)) t = Some p -> feasible d (length (status s)) p = true ->
     offset o <> 0 ->
     0 <= Z.of_nat p + offset o < Z.of_nat (length (status s)) ->
     solve_t_M d o t s =
@@ -174,13 +174,14 @@ Section Facts.
      solve_t_M d (set_offset o 0) t
        (mkState (copy_endo d (vals_of s) p (Z.to_nat (Z.of_nat p + offset o))) (status s) (iters s) (log s))).
   Proof.
-    intros Hp Hoff Hin. unfold Solver.solve_t_M.
+    intros Hp Hfeas Hoff Hin. unfold Solver.solve_t_M.
     change (offset (set_offset o 0)) with 0. change (max_iter (set_offset o 0)) with (max_iter o).
     change (min_iter (set_offset o 0)) with (min_iter o). change (errors (set_offset o 0)) with (errors o).
     change (catch_first (set_offset o 0)) with (catch_first o).
     change (fail_raise (set_offset o 0)) with (fail_raise o).
     cbn [status iters vals_of log].
     destruct (max_iter o <? min_iter o); [reflexivity|]. rewrite Hp.
+    rewrite Hfeas. cbn [negb].
     replace (offset o =? 0) with false by lia. cbn [Z.eqb].
     replace (Z.of_nat p + offset o <? 0) with false by lia.
     replace (Z.of_nat (length (status s)) <=? Z.of_nat p + offset o) with false by lia.
@@ -192,7 +193,7 @@ Section Facts.
   (* The C02 statement for offset = 0 (offset_seeds reduces the other case to it). *)
   Theorem solve_t_finite_spec d o t s p v1 :
     min_iter o <= max_iter o -> 0 <= max_iter o ->
-    py_pos (length (status s)) t = Some p ->
+    py_pos (length (status s)) t = Some p -> feasible d (length (status s)) p = true ->
     offset o = 0 ->
     let c0 := get_check d (vals_of s) p in
     let N := Z.to_nat (max_iter o) in
@@ -218,8 +219,8 @@ Section Facts.
          if fail_raise o then Raise NonConvergenceError else Ret false)
     end.
   Proof.
-    intros Hmm Hpos Hp Hoff c0 N Hbefore Hev Hfin.
-    unfold Solver.solve_t_M. replace (max_iter o <? min_iter o) with false by lia. rewrite Hp.
+    intros Hmm Hpos Hp Hfeas Hoff c0 N Hbefore Hev Hfin.
+    unfold Solver.solve_t_M. replace (max_iter o <? min_iter o) with false by lia. rewrite Hp. rewrite Hfeas. cbn [negb].
     rewrite Hoff. cbn [Z.eqb]. fold c0.
     assert (Hc0 : all_finite c0 = true) by (apply (Hfin 0%nat); lia).
     rewrite Hc0. cbn [negb]. rewrite andb_false_r. rewrite Hbefore.
@@ -239,7 +240,7 @@ Section Facts.
   (* readable corollaries: the return value, status and iteration count *)
   Corollary solve_t_converges_at_least_k d o t s p v1 k0 :
     min_iter o <= max_iter o -> 0 <= max_iter o ->
-    py_pos (length (status s)) t = Some p -> offset o = 0 ->
+    py_pos (length (status s)) t = Some p -> feasible d (length (status s)) p = true -> offset o = 0 ->
     let c0 := get_check d (vals_of s) p in
     let N := Z.to_nat (max_iter o) in
     before t (errors o) (catch_first o) 0%nat (vals_of s) = (v1, None) ->
@@ -257,10 +258,10 @@ Section Facts.
     (forall q, q <> p -> nth_error (status (fst r)) q = nth_error (status s) q
                       /\ nth_error (iters (fst r)) q = nth_error (iters s) q).
   Proof.
-    intros Hmm Hpos Hp Hoff c0 N Hb Hev Hfin Haft Hk0 Hconv Hleast r.
+    intros Hmm Hpos Hp Hfeas Hoff c0 N Hb Hev Hfin Haft Hk0 Hconv Hleast r.
     assert (EF : find_first (convk d o t p c0 v1) 1 N = Some k0).
     { apply find_first_some. repeat split; try lia; auto. }
-    subst r. rewrite (solve_t_finite_spec d o t s p v1 Hmm Hpos Hp Hoff Hb Hev Hfin). fold c0 N. rewrite EF.
+    subst r. rewrite (solve_t_finite_spec d o t s p v1 Hmm Hpos Hp Hfeas Hoff Hb Hev Hfin). fold c0 N. rewrite EF.
     specialize (Haft k0 (st_after o t v1 k0)).
     destruct (afterk o t k0 (st_after o t v1 k0)) as [v'' r']. cbn [snd] in Haft. subst r'.
     cbn [fst snd status iters log]. pose proof (py_pos_lt _ _ _ Hp) as Hlt.
@@ -275,7 +276,7 @@ Section Facts.
 
   Corollary solve_t_fails_when_no_k d o t s p v1 :
     min_iter o <= max_iter o -> 0 <= max_iter o ->
-    py_pos (length (status s)) t = Some p -> offset o = 0 ->
+    py_pos (length (status s)) t = Some p -> feasible d (length (status s)) p = true -> offset o = 0 ->
     let c0 := get_check d (vals_of s) p in
     let N := Z.to_nat (max_iter o) in
     before t (errors o) (catch_first o) 0%nat (vals_of s) = (v1, None) ->
@@ -290,10 +291,10 @@ Section Facts.
     (forall q, q <> p -> nth_error (status (fst r)) q = nth_error (status s) q
                       /\ nth_error (iters (fst r)) q = nth_error (iters s) q).
   Proof.
-    intros Hmm Hpos Hp Hoff c0 N Hb Hev Hfin Hnone r.
+    intros Hmm Hpos Hp Hfeas Hoff c0 N Hb Hev Hfin Hnone r.
     assert (EF : find_first (convk d o t p c0 v1) 1 N = None).
     { apply find_first_none. intros j Hj. apply Hnone. lia. }
-    subst r. rewrite (solve_t_finite_spec d o t s p v1 Hmm Hpos Hp Hoff Hb Hev Hfin). fold c0 N. rewrite EF.
+    subst r. rewrite (solve_t_finite_spec d o t s p v1 Hmm Hpos Hp Hfeas Hoff Hb Hev Hfin). fold c0 N. rewrite EF.
     cbn [fst snd status iters log vals_of]. pose proof (py_pos_lt _ _ _ Hp) as Hlt.
     repeat split.
     - apply nth_error_upd_eq; exact Hlt.
@@ -304,15 +305,15 @@ Section Facts.
   (* max_iter = 0 (repaired by the fix for finding #1): no pass, 'F', iterations = 0 = max_iter *)
   Theorem solve_t_maxiter0 d o t s p v1 :
     min_iter o <= max_iter o -> max_iter o = 0 ->
-    py_pos (length (status s)) t = Some p -> offset o = 0 ->
+    py_pos (length (status s)) t = Some p -> feasible d (length (status s)) p = true -> offset o = 0 ->
     all_finite (get_check d (vals_of s) p) = true ->
     before t (errors o) (catch_first o) 0%nat (vals_of s) = (v1, None) ->
     solve_t_M d o t s =
       (mkState v1 (upd p Failed (status s)) (upd p (max_iter o) (iters s)) (log s ++ [EvBefore t]),
        if fail_raise o then Raise NonConvergenceError else Ret false).
   Proof.
-    intros Hmm Hmax Hp Hoff Hfin Hb. unfold Solver.solve_t_M.
-    replace (max_iter o <? min_iter o) with false by lia. rewrite Hp, Hoff. cbn [Z.eqb].
+    intros Hmm Hmax Hp Hfeas Hoff Hfin Hb. unfold Solver.solve_t_M.
+    replace (max_iter o <? min_iter o) with false by lia. rewrite Hp, Hfeas, Hoff. cbn [Z.eqb negb].
     rewrite Hfin. cbn [negb]. rewrite andb_false_r, Hb.
     rewrite Hmax. cbn [Z.to_nat Solver.loop Solver.finish Nat.sub st_eqb andb stamp Z.of_nat].
     destruct (fail_raise o); reflexivity.
